@@ -1075,6 +1075,12 @@ func (un *Unit) evCall(e *ECall, sc *Scope) SV {
 			idx = "(- " + sel(un.get(sc.cur, recvd), x.t) + " 1)"
 		}
 		return SV{t: sel(un.get(sc.cur, log), x.t, idx), typ: elem}
+	case "bytesof":
+		// bytesof(page, off, n): the []byte window of n bytes at offset off of backing array `page`
+		if len(e.Args) != 3 {
+			return sc.fail("bytesof(page, off, n)")
+		}
+		return SV{t: "(mk_slice " + arg(0).t + " " + arg(1).t + " " + arg(2).t + " " + arg(2).t + ")", typ: types.NewSlice(types.Typ[types.Byte])}
 	case "off":
 		// off(b): the offset of slice b in its backing array
 		return intSV("(s_off " + arg(0).t + ")")
@@ -1237,13 +1243,21 @@ func (un *Unit) evCall(e *ECall, sc *Scope) SV {
 		}
 		return boolSV("false") // no such call in this function: it did not happen
 	case "called":
-		callee := exprText(e.Args[0])
-		n := 0
-		if sc.fr != nil {
-			n = sc.fr.calls[callee]
+		// called(callee, k): the k-th call site of callee (in execution order over the unrolled body) was reached on this path
+		if len(e.Args) != 2 {
+			return sc.fail("called(callee, k)")
 		}
-		_ = n
-		return sc.fail("called() not supported; use ghost counters")
+		callee := exprText(e.Args[0])
+		k, _ := strconv.Atoi(exprText(e.Args[1]))
+		if sc.fr != nil {
+			if g, ok := sc.fr.callG[fmt.Sprintf("%s#%d", callee, k)]; ok {
+				if g == "" {
+					g = "true"
+				}
+				return boolSV(g)
+			}
+		}
+		return boolSV("false")
 	}
 	// ghost field access: name(x)
 	if g, ok := un.specs.Ghosts[e.Fun]; ok && g.Field {
@@ -1528,6 +1542,8 @@ func (un *Unit) applyContract(fr *Frame, st *State, fc *FuncContract, names []st
 	}
 	fr.callArgs[fmt.Sprintf("%s#%d", shortKey(calleeKey), ord)] = argRec
 	fr.callArgs[fmt.Sprintf("%s#%d", last, ord)] = argRec
+	fr.callG[fmt.Sprintf("%s#%d", shortKey(calleeKey), ord)] = pre.guard
+	fr.callG[fmt.Sprintf("%s#%d", last, ord)] = pre.guard
 	// calls made by inlined callees are also visible, in execution order, to the enclosing frames
 	for f := fr.parent; f != nil; f = f.parent {
 		f.calls[calleeKey]++
@@ -1536,6 +1552,8 @@ func (un *Unit) applyContract(fr *Frame, st *State, fc *FuncContract, names []st
 		f.callRes[fmt.Sprintf("%s#%d", last, o)] = rvals
 		f.callArgs[fmt.Sprintf("%s#%d", shortKey(calleeKey), o)] = argRec
 		f.callArgs[fmt.Sprintf("%s#%d", last, o)] = argRec
+		f.callG[fmt.Sprintf("%s#%d", shortKey(calleeKey), o)] = pre.guard
+		f.callG[fmt.Sprintf("%s#%d", last, o)] = pre.guard
 	}
 	post := sc.child()
 	post.cur = st
